@@ -2,7 +2,7 @@
 menus of the MC_* models.  They carry no expectation: TLC (Trace_Load.tla) is the oracle."""
 import random
 
-NAMES_PAR = ["a", "ab", "al", "alpha", "s", "sq", "b", "phi", "theta", "w2"]
+NAMES_PAR = ["a", "ab", "al", "alpha", "s", "sq", "b", "phi", "theta", "w2", "p1a", "p0_bs", "p3", "p"]
 FUNCS = ["sin", "cos", "tan", "arctan", "sinh", "cosh", "tanh", "arcsinh", "sqrt", "exp", "log"]
 OPS = ["Sgate", "Dgate", "Rgate", "BSgate", "S2gate", "Kgate", "Vac", "Coherent", "Fock", "Interferometer", "G_1", "Zgate"]
 MEAS = ["MeasureX", "MeasureP", "MeasureFock", "MeasureHomodyne", "Measure"]
@@ -197,7 +197,7 @@ class Gen:
             ctx.scalars[name] = ty
             return {"t": "var", "ty": ty, "x": name, "e": e}
         ty = r.choice(["int", "float", "complex"])
-        name = r.choice(["A", "B", "U", "A"])
+        name = r.choice(["A", "B", "U", "A"] + (["p1x", "p_2"] if getattr(ctx, "tdm", False) else []))   # not p<digits>: by value also under tdm
         rows, cols = r.choice([(1, 1), (1, 3), (2, 2), (3, 1), (2, 3), (1, 4)])
         kinds = {"int": ("int",), "float": ("int", "float"), "complex": ("int", "float", "complex")}[ty]
         body = []
@@ -277,6 +277,7 @@ class Gen:
         s = {"name": r.choice(["prog", "test_1", "Tele"]), "version": "1.0", "target": meta(r.choice(["gaussian", "X8_01", "fock"])),
              "type": meta(r.choice(["tdm", "sampling", "tdm"])), "incs": [], "body": []}
         tdm = s["type"]["name"] == "tdm"
+        ctx.tdm = tdm
         n = size if size is not None else r.choice([1, 2, 3, 4, 5, 6, 8])
         for _ in range(n):
             c = r.random()
